@@ -177,6 +177,18 @@ CHECKS["C06"] = ("exploration",
     "client must be served before and after and descriptors must return to the baseline.",
     "max_msg_size capped at 4 MiB; asan server; 24 GiB guard zones", "DESIGN.md C06")
 
+CHECKS["C03"] = ("fault_enumeration",
+    "ptrace crash-point enumeration: the dying process is killed at its n-th syscall entry/exit stop, then the "
+    "survivor is audited (callback automaton, stats, /proc/<pid>/fd, /dev/shm, control client; call latencies and "
+    "error codes on the client side)",
+    "Client death: 4 scenarios (transport x empty / non-empty queues) of connect, traffic, events, queued requests "
+    "and disconnect; the victim is killed at every 7th (quick) / every (thorough) syscall stop. Every handshake "
+    "prefix x {exit, stall, byte-wise}. Server death: the traced server is killed at the n-th stop after the first "
+    "connection exists (including while it sets up or tears down a second client); the surviving client's recv, "
+    "sendv_recv (finite and infinite), event_recv(-1), later send/recv and disconnect are timed and their results "
+    "judged; non-empty files of the survivor's connection are looked for after qb_ipcc_disconnect.",
+    "crash points are syscall boundaries; deadlines get 1 s allowance, a missed one is re-run once", "DESIGN.md C03")
+
 REASON_PENDING = "check not registered yet in this revision (implementation in progress, see DESIGN.md section 7)"
 
 
